@@ -2,6 +2,7 @@
    PARTIAL: theorems over interleaving models of the shared parts (route cache, handler slices, context pool,
    access footprints); the Go memory model, sync.Pool and sync.RWMutex themselves are not modelled. *)
 From Rux Require Import Base Str Pattern Cache Table TableFacts Conc ConcFacts.
+From Rux Require Import CopyCtx.
 
 (* (A) For every router with a coherent cache (fresh routers are), every family of request threads and EVERY schedule of
    their atomic cache actions (Get; later, after the pure dynamic match, Set; other threads in between): the cache stays
@@ -55,6 +56,19 @@ Theorem C03_legacy_double_put_refuted :
   in_use s = [0; 0].
 Proof. exact legacy_double_put_refuted. Qed.
 
+(* F23 (repaired by 26ba90b): a context copied for a goroutine that outlives its request keeps its own errors - on the slice
+   heap, for every growth policy and every later sequence of Reset / AddError on the pooled context (which reuses the
+   backing array of its Errors slice for the following requests), the copy still reads the errors it was taken with *)
+Theorem C03_copy_keeps_errors : forall (g : nat) (gp : slice -> nat) (h : heap) (e : slice) (ops : list pool_ctx_op),
+  slice_elems (fst (run_pool_ctx gp ops (fst (copy_ctx true g h e), e))) (snd (copy_ctx true g h e)) = slice_elems h e.
+Proof. exact copy_keeps_errors_fixed'. Qed.
+(* before the repair the copy shared the backing array: error 7 recorded, copy, Reset, AddError 9 - the copy reads 9 *)
+Theorem C03_legacy_F23_refuted : exists g gp h e ops,
+  let '(h1, cp) := copy_ctx false g h e in
+  let '(h', e') := run_pool_ctx gp ops (h1, e) in
+  slice_elems h e = [7] /\ slice_elems h' cp = [9].
+Proof. exact copy_keeps_errors_legacy_refuted. Qed.
+
 Print Assumptions C03_lookups_independent.
 Print Assumptions C03_finished_thread_solo.
 Print Assumptions C03_chains_independent.
@@ -64,3 +78,5 @@ Print Assumptions C03_legacy_chain_aliasing_refuted.
 Print Assumptions C03_legacy_get_race_refuted.
 Print Assumptions C03_legacy_assemble_race_refuted.
 Print Assumptions C03_legacy_double_put_refuted.
+Print Assumptions C03_copy_keeps_errors.
+Print Assumptions C03_legacy_F23_refuted.
